@@ -49,11 +49,25 @@ fn validate_method(ctx: &Context, input: &DeriveInput) -> TokenStream {
                     quote! {}
                 };
 
+                let data = if !ctx.info.sized {
+                    // Walk exactly the bytes the view made by `ptr_from_bytes` covers.
+                    quote! {
+                        let data = unsafe {
+                            __flatty_bytes.get_unchecked(
+                                Self::DATA_OFFSET..(Self::DATA_OFFSET
+                                    + ::flatty::utils::floor_mul(__flatty_bytes.len() - Self::DATA_OFFSET, Self::ALIGN)),
+                            )
+                        };
+                    }
+                } else {
+                    quote! { let data = unsafe { __flatty_bytes.get_unchecked(Self::DATA_OFFSET..) }; }
+                };
+
                 quote! {
                     use ::flatty::error::{Error, ErrorKind};
 
                     let tag = { #validate_tag };
-                    let data = unsafe { __flatty_bytes.get_unchecked(Self::DATA_OFFSET..) };
+                    #data
 
                     #size_check
 
